@@ -35,7 +35,7 @@ Check(e) ==
                    THEN {} ELSE {"EvmAddressRegisteredOnceFromOwnSignatures"})
                   \cup (IF "valset" \in DOMAIN e.slotsafter
                         THEN (IF Trues(e.slotsafter.valset) = Trues(e.slotsbefore.valset) \cup
-                                   { e.positions[c[i].val].prev : i \in { j \in Committed(c) : c[j].shape \in {"valset", "all"} /\ e.positions[c[j].val].prev > 0 } }
+                                   { e.positions[c[i].val].prev : i \in { j \in Committed(c) : c[j].shape \in {"valset", "valsetonly", "all"} /\ e.positions[c[j].val].prev > 0 } }
                               THEN {} ELSE {"ValsetSignatureLandsOnlyInSendersSlot"})
                         ELSE {})
                   \cup (IF \A s \in {"s1", "s2"} : s \in DOMAIN e.slotsafter =>
